@@ -87,6 +87,9 @@ var (
 	FuelOn   bool
 	Fuel     int64
 	FuelSite string
+	// FuelStack holds the repository frames at exhaustion (filled by StackFn).
+	FuelStack string
+	StackFn   func() string
 	// Ticks counts all loop iterations observed (reach probe).
 	Ticks int64
 )
@@ -104,6 +107,9 @@ func Tick(site string) {
 	if Fuel < 0 {
 		FuelOn = false
 		FuelSite = site
+		if StackFn != nil {
+			FuelStack = StackFn()
+		}
 		panic(FuelExhausted{Site: site})
 	}
 }
